@@ -195,8 +195,12 @@ def _check_op(cell, elems, ctx):
             return
         single = not cell.get("db") or "axis" in op.tags
         in_others = [f for f in ak.fields(o.A) if f not in COORD_GENERIC]
+        if "boost" in op.tags and cell.get("db"):
+            ctx.fact("boost_fields", [op.name, cell["ka"], "kept" if others == in_others and in_others else ("none" if not others else "other")])
         if "boost" in op.tags and not others:
-            pass  # a boost transforms its subject by a secondary vector: keeping the subject's fields or none are both accepted
+            # a boost transforms its subject by a secondary vector: keeping the subject's fields or returning coordinates only
+            # are both readings of the statement - but one convention must hold for every boost spelling (finalize)
+            pass
         elif single or "boost" in op.tags:
             if others != in_others:
                 ctx.fail("extra_fields", f"{where}: non-coordinate fields {others} != operand's {in_others}", op=op.name,
@@ -438,3 +442,25 @@ def _check_record(cell, elems, ctx):
 
 def describe(cell, case):
     return case[:1]
+
+
+def finalize(tier, results):
+    """boosts by a vector either all keep the subject's non-coordinate fields or all drop them"""
+    seen = {}
+    for r in results:
+        for name, ka, how in r.get("facts", {}).get("boost_fields", []):
+            seen.setdefault(how, []).append((name, ka))
+    out = []
+    if len([h for h in seen if h in ("kept", "none")]) > 1 or "other" in seen:
+        minority = min((h for h in seen), key=lambda h: len(seen[h]))
+        from vcheck import findings
+        from vcheck.findings import Violation
+
+        names = sorted({n for n, _ in seen[minority]})
+        v = Violation("boost_fields_inconsistent", f"boosts by a vector disagree about the subject's non-coordinate fields: "
+                      f"{ {h: sorted({n for n, _ in v_})[:8] for h, v_ in seen.items()} }", op=names[0], variant="extra_fields", backend="awkward")
+        v.cell = {"id": "finalize|boost_fields"}
+        v.case = {h: v_[:10] for h, v_ in seen.items()}
+        if findings.match(PID, v) is None:
+            out.append(v)
+    return out
